@@ -4,7 +4,7 @@
    Model/Collator.v; readable specification in Spec/OrderSpec.v. *)
 From Coq Require Import List Sorting Permutation ZArith String Bool Lia Arith.
 From CC Require Import Base.SortX Spec.OrderSpec Model.Collator
-  Proofs.OrderCollate Proofs.OrderExplicit Proofs.OrderIds.
+  Proofs.OrderCollate Proofs.OrderExplicit Proofs.OrderIds Proofs.OrderVisible Proofs.OrderRender.
 Import ListNotations.
 Local Open Scope nat_scope.
 
@@ -108,20 +108,28 @@ Theorem C07_payload_mapping_view_only d :
 Proof. exact (payload_bogus_ids_view_only d). Qed.
 Print Assumptions C07_payload_mapping_view_only.
 
-(* ... but the payload-order collator builds it from the VIEW's insertion list: with
-   transform insertions listed in another order the 'ins_N' rendering names other
-   subtotals than the signed one (known finding C07-bogus-ids-payload-mapping). *)
-Theorem C07_renderings_refuted :
-  exists d empties signed bogus,
-    NoDup (d_ids d) /\
-    anchored_display d OPayload empties = Ok signed /\
-    anchored_display_bogus d OPayload empties = Ok bogus /\
-    bogus <> map (fun z => if Z.ltb z 0
-                           then EIns (nth (Z.to_nat (Z.of_nat (List.length (subtotals d)) + z))
-                                          (map fst (subtotals d)) 0%Z)
-                           else EBase z) signed.
-Proof. exact renderings_refuted. Qed.
-Print Assumptions C07_renderings_refuted.
+(* ... and the display order of EVERY collator (payload, explicit, sort-by-value, fallback), with or
+   without subtotal pruning, is rendered with the ids of the dimension's own subtotals: the 'ins_N'
+   rendering is the signed one with every negative index replaced by the id of the subtotal it
+   denotes.  (Two repaired defects: C07-bogus-ids-payload-mapping - the payload collator used the
+   VIEW's ids - and C07-bogus-ids-prune-subtotals-typeerror - pruned subtotals raised TypeError.) *)
+Theorem C07_renderings_agree_display d o empties psub signed :
+  NoDup (d_ids d) -> values_fit d o ->
+  display_order d o empties psub = Ok signed ->
+  display_order_bogus d o empties psub = Ok (map (render_entry (map fst (subtotals d))) signed).
+Proof. exact (renderings_agree_display d o empties psub signed). Qed.
+Print Assumptions C07_renderings_agree_display.
+
+(* the former witness: transform insertions [B; A] over view insertions [A; B] *)
+Theorem C07_renderings_former_witness :
+  let el := fun i => mkElem (IInt i) false DNone in
+  let A := mkIns (Some 1%Z) (IInt 1%Z) true false [IInt 1%Z] in
+  let B := mkIns (Some 2%Z) (IInt 2%Z) true false [IInt 1%Z] in
+  let d := mkDim [el 1%Z; el 2%Z; el 3%Z] false [A; B] (Some [B; A]) [] false in
+  anchored_display d OPayload [] = Ok [0; -1; 1; -2; 2]%Z /\
+  anchored_display_bogus d OPayload [] = Ok [EBase 0; EIns 1; EBase 1; EIns 2; EBase 2]%Z.
+Proof. exact renderings_former_witness. Qed.
+Print Assumptions C07_renderings_former_witness.
 
 (* non-vacuity: 4 categories (ids 1 2 3 4), view insertions anchored at 3, "top", "3",
    "Top", null, explicit order [3;3;9;1] and element 1 hidden *)
